@@ -506,6 +506,23 @@ theorem replaced_publisher_silent (s : PubSt) (p tag : Nat) (h : p ≤ s.cur) :
     (pubStep s (.race p tag)).2 = none := by
   simp [pubStep]; omega
 
+/-- **a new publisher starts clean**: whatever the previous publisher left incomplete, the first unit after a
+take-over is the new publisher's priming unit alone, and nothing is pending. -/
+theorem new_publisher_starts_clean (s : RtpSt) :
+    (rtpStep s .pubr).2 = some [65535] ∧ (rtpStep s .pubr).1.pending = [] := ⟨rfl, rfl⟩
+
+/-- a delivered unit ends with the tag just sent by the CURRENT publisher and otherwise holds what that same
+publisher collected since its last marker -/
+theorem rtp_unit_of_current (s : RtpSt) (p tag : Nat) (m : Bool) (au : List Nat)
+    (h : (rtpStep s (.rtp p tag m)).2 = some au) : s.cur = some p ∧ m = true ∧ au = s.pending ++ [tag] := by
+  simp only [rtpStep] at h
+  split at h
+  · rename_i hc
+    split at h
+    · rename_i hm; cases h; exact ⟨by simpa using hc, hm, rfl⟩
+    · cases h
+  · cases h
+
 /-! #### non-vacuity and regression examples (kernel-decided) -/
 
 def exRun := run (init 1) [.add 0 [0], .add 1 [1], .write 0 10 [], .write 0 11 [], .write 0 12 [], .write 1 13 [],
